@@ -68,6 +68,7 @@ type docCase struct {
 	pubText           string
 	cancelAt          time.Duration // 0: never; else the caller's context is cancelled at this instant
 	viaHTTP           bool          // the request goes through the HTTP handler instead of the library call
+	prior             bool          // another request was served by the same Traceroute object (and process-wide caches) just before
 	twin              bool          // (viaHTTP) a second request to the SAME server, same parameters except skip-private-hops, is in flight meanwhile
 }
 
@@ -252,21 +253,24 @@ func (e *timeoutShaped) Error() string   { return fmt.Sprintf("injected i/o time
 func (e *timeoutShaped) Timeout() bool   { return true }
 func (e *timeoutShaped) Temporary() bool { return true }
 
+// entries 64..127 are TWINS of 0..63: another failure (its own identity for errors.Is / errors.As) that prints exactly
+// like its sibling - what several queries report when one root cause hits them all ("operation not permitted" 53 times)
 var docErrs = func() []error {
-	es := make([]error, 64)
-	for i := range es {
+	es := make([]error, 128)
+	for j := range es {
+		i := j % 64
 		switch {
 		case i%8 == 3:
 			// what a run that honours its context returns when the caller (or anybody) cancels: still a failed query
-			es[i] = fmt.Errorf("injected failure #%d: %w", i, context.Canceled)
+			es[j] = fmt.Errorf("injected failure #%d: %w", i, context.Canceled)
 		case i%8 == 7:
-			es[i] = fmt.Errorf("injected failure #%d: %w", i, context.DeadlineExceeded)
+			es[j] = fmt.Errorf("injected failure #%d: %w", i, context.DeadlineExceeded)
 		case i%4 == 1:
-			es[i] = &timeoutShaped{i}
+			es[j] = &timeoutShaped{i}
 		case i%4 == 2:
-			es[i] = &net.OpError{Op: "read", Net: "ip4", Err: &timeoutShaped{i}}
+			es[j] = &net.OpError{Op: "read", Net: "ip4", Err: &timeoutShaped{i}}
 		default:
-			es[i] = fmt.Errorf("injected failure #%d", i)
+			es[j] = fmt.Errorf("injected failure #%d", i)
 		}
 	}
 	return es
@@ -279,9 +283,10 @@ func runDocCase(t *testing.T, c docCase) sx {
 		// the scripted answers are handed out per request: the twin request (the other skip-private-hops value) gets the same ones
 		var runIdxs, e2eIdxs [2]atomic.Int32
 		twinGate := make(chan struct{})
+		var priorPhase atomic.Bool
 		restore := traceroute.VerifSetRunOnce(func(ctx context.Context, p traceroute.TracerouteParams, port int) (*result.TracerouteRun, error) {
 			which := 0
-			if p.SkipPrivateHops != c.skip {
+			if p.SkipPrivateHops != c.skip && !priorPhase.Load() {
 				which = 1
 				// every query of the twin is held until the observed request has been handed to the handler (and 1 ms more):
 				// the two requests overlap in time
@@ -294,6 +299,16 @@ func runDocCase(t *testing.T, c docCase) sx {
 			// a query the request did not ask for (more runs / probes started than scripted) gets a plain
 			// one-hop answer, so the case completes and the counts in the document show the excess
 			extra := docQuery{ok: true, hops: []docHop{{ttl: p.MaxTTL, ip: []byte{192, 0, 2, 99}, rttK: 1000, dest: true}}, srcIP: []byte{192, 0, 2, 1}, dstIP: []byte{192, 0, 2, 99}}
+			if priorPhase.Load() {
+				// the request served BEFORE the observed one: a two-hop path through a private and a public router
+				time.Sleep(3 * time.Millisecond)
+				return &result.TracerouteRun{
+					Source:      result.TracerouteSource{IPAddress: net.IP{192, 0, 2, 1}, Port: 40000},
+					Destination: result.TracerouteDestination{IPAddress: net.IP{192, 0, 2, 98}, Port: 33434},
+					Hops: []*result.TracerouteHop{{TTL: 1, IPAddress: net.IP{10, 1, 2, 3}, RTT: 1.5}, {TTL: 2, IPAddress: net.IP{8, 8, 8, 8}, RTT: 2.5},
+						{TTL: 3, IPAddress: net.IP{192, 0, 2, 98}, RTT: 3.5, IsDest: true}},
+				}, nil
+			}
 			if p.MinTTL == p.MaxTTL {
 				if i := int(e2eIdx.Add(1)) - 1; i < len(c.e2es) {
 					q = c.e2es[i]
@@ -335,8 +350,17 @@ func runDocCase(t *testing.T, c docCase) sx {
 		var lookups sync.Map
 		reversedns.LookupAddrFn = func(ctx context.Context, addr string) ([]string, error) {
 			lookups.Store(addr, true)
-			time.Sleep(time.Duration(3+len(addr)) * time.Millisecond)
 			r, ok := rv[addr]
+			// like net.Resolver, the stub honours its context; a negative answer (NXDOMAIN) comes back faster than the names do
+			d := time.Duration(3+len(addr)) * time.Millisecond
+			if !ok || !r.ok {
+				d = time.Millisecond
+			}
+			select {
+			case <-time.After(d):
+			case <-ctx.Done():
+				return nil, ctx.Err()
+			}
 			if !ok || !r.ok {
 				return nil, &net.DNSError{Err: "no such host", Name: addr, IsNotFound: ok}
 			}
@@ -345,6 +369,15 @@ func runDocCase(t *testing.T, c docCase) sx {
 		tr := traceroute.VerifNewTraceroute(stubFetcher{ok: c.pubOK, text: c.pubText})
 		params := traceroute.TracerouteParams{Hostname: "target.example", Port: 0, Protocol: "udp", MinTTL: 1, MaxTTL: c.maxTTL, Delay: 50,
 			Timeout: c.timeout, TracerouteQueries: c.q, E2eQueries: c.e, ReverseDns: c.rdns, CollectSourcePublicIP: c.pubip, SkipPrivateHops: c.skip}
+		if c.prior {
+			// what the object and the process-wide caches went through before: a complete request with the opposite flags
+			priorPhase.Store(true)
+			pp := params
+			pp.Hostname, pp.TracerouteQueries, pp.E2eQueries, pp.MaxTTL = "earlier.example", 2, 2, 3
+			pp.SkipPrivateHops, pp.ReverseDns, pp.CollectSourcePublicIP = !c.skip, true, true
+			_, _ = tr.RunTraceroute(context.Background(), pp)
+			priorPhase.Store(false)
+		}
 		ctx, cancel := context.WithCancel(context.Background())
 		defer cancel()
 		if c.cancelAt > 0 {
@@ -528,6 +561,7 @@ func genDocCase(r *rng, i int) docCase {
 	}
 	c.viaHTTP = i%4 == 3
 	c.twin = i%8 == 7
+	c.prior = i%8 == 5 || i%16 == 7
 	if r.intn(4) == 0 {
 		// the per-query function (like the real udp/tcp drivers) ignores the context: cancellation must not lose samples
 		c.cancelAt = time.Duration(1+r.intn(1500))*time.Millisecond + 777
@@ -553,6 +587,32 @@ func genDocCase(r *rng, i int) docCase {
 			q.ok = true
 		}
 		c.e2es = append(c.e2es, q)
+	}
+	// one root cause behind several failures: the later failing queries report the TWIN of the first one's error (same text,
+	// another failure).  Not through the HTTP handler: in a response body two failures that print alike cannot be told apart.
+	if !c.viaHTTP && r.intn(2) == 0 {
+		first := -1
+		twin := func(q *docQuery) {
+			if q.ok {
+				return
+			}
+			if first < 0 {
+				first = q.errID
+			} else if q.errID != first {
+				q.errID = first + 64
+				first = -2 // one twin per case: a third identical failure would share the twin's identity
+			}
+		}
+		for k := range c.runs {
+			if first != -2 {
+				twin(&c.runs[k])
+			}
+		}
+		for k := range c.e2es {
+			if first != -2 {
+				twin(&c.e2es[k])
+			}
+		}
 	}
 	seen := map[string]bool{}
 	add := func(ip []byte) {
@@ -603,6 +663,9 @@ func labDoc(e labEnv) {
 		if c.cancelAt > 0 {
 			tags["ctx_cancelled_midway"]++
 		}
+		if c.prior {
+			tags["after_an_earlier_request_on_the_same_object"]++
+		}
 		if c.viaHTTP {
 			tags["via_http_handler"]++
 			if c.twin {
@@ -612,6 +675,48 @@ func labDoc(e labEnv) {
 		if l, ok := out.(sxList); ok && len(l) > 0 {
 			tags[fmt.Sprintf("status%s", sxString(l[0]))]++
 		}
+	}
+	// kind 31: documents finished CONCURRENTLY (overlapping requests of one server process each end in Results.Normalize):
+	// every test-run and run identifier handed out in the process is fresh
+	//   input (31 goroutines documents_each runs_each)   impl (identifiers distinct_identifiers malformed)
+	for _, g := range []int{2, 8, 16} {
+		docs, runs := 3000, 2
+		ids := make([][]string, g)
+		var wg sync.WaitGroup
+		start := make(chan struct{})
+		for k := 0; k < g; k++ {
+			wg.Add(1)
+			go func(k int) {
+				defer wg.Done()
+				<-start
+				for d := 0; d < docs; d++ {
+					res := &result.Results{}
+					for x := 0; x < runs; x++ {
+						res.Traceroute.Runs = append(res.Traceroute.Runs, result.TracerouteRun{})
+					}
+					res.Normalize()
+					ids[k] = append(ids[k], res.TestRunID)
+					for x := range res.Traceroute.Runs {
+						ids[k] = append(ids[k], res.Traceroute.Runs[x].RunID)
+					}
+				}
+			}(k)
+		}
+		close(start)
+		wg.Wait()
+		seen := map[string]bool{}
+		total, malformed := 0, 0
+		for _, l := range ids {
+			for _, id := range l {
+				total++
+				seen[id] = true
+				if len(id) != 22 {
+					malformed++
+				}
+			}
+		}
+		w.put(L(sxInt(31), sxInt(int64(g)), sxInt(int64(docs)), sxInt(int64(runs))), L(sxInt(int64(total)), sxInt(int64(len(seen))), sxInt(int64(malformed))))
+		tags["identifiers_from_concurrently_finished_documents"] += total
 	}
 	must(w.close())
 	writeDist(e, "doc", tags)
